@@ -32,6 +32,14 @@ def exact_bound(case):
     return F32_BOUND if any(d in ("f32", "c64") for d in dts) else F64_BOUND
 
 
+def absbound_of(ans):
+    b = ans.get("absbound", 0)
+    if isinstance(b, str):
+        n, d = b.split("/")
+        return int(n) / int(d) * int(d)   # mantissa bound: clear the (dyadic) denominator
+    return b
+
+
 def promote(a, b):
     return build.dtname(np.promote_types(build.DT[a], build.DT[b]))
 
@@ -139,7 +147,12 @@ def run_real(case):
 
 def anns_true(anns, den):
     """list of the reported annotations that are FALSE of the (exact, Gaussian-integer) matrix"""
-    M = np.array([[complex(z[0], z[1]) for z in row] for row in den], dtype=np.complex128)
+    def fq(x):
+        if isinstance(x, str):
+            n, d = x.split("/")
+            return int(n) / int(d)
+        return x
+    M = np.array([[complex(fq(z[0]), fq(z[1])) for z in row] for row in den], dtype=np.complex128)
     if M.size == 0:
         return []
     r, c = M.shape
@@ -231,7 +244,7 @@ def classify(case, ans, real):
         return "driver-error", ans["error"]
     if not ans.get("wf", True):
         return "skipped", "not well-formed"
-    if ans.get("absbound", 0) >= exact_bound(case):
+    if absbound_of(ans) >= exact_bound(case):
         return "inexact", ""
     real, code, spec = observations(case, ans, real)
     rc, kc = sub_agree(real, code)
